@@ -122,9 +122,10 @@ theorem relistsAfter_of_backoff {w w' : World} (hph : w'.phase = .backoff) (ho :
 
 /-! ### a pending watch request never survives a noticed pause -/
 
-/-- while a watch request is pending or its response is open, the pause-waiter has not fired (it would
-    have cancelled the request / closed the response) -/
-def ConnFresh (w : World) : Prop := (w.phase = .connecting ∨ w.phase = .streaming) → w.pauseSeen = false
+/-- while a listing or a watch request is pending or a response is open, the pause-waiter has not fired
+    (it would have cancelled the request / closed the response) -/
+def ConnFresh (w : World) : Prop :=
+  (w.phase = .listing ∨ w.phase = .connecting ∨ w.phase = .streaming) → w.pauseSeen = false
 
 theorem connFresh_init : ConnFresh init := by simp [ConnFresh, init]
 
@@ -215,5 +216,17 @@ theorem event_step_quiet {w : World} (hq : Quiet w) (hc : ConnFresh w) (a : Act)
       (repeat' split) <;> (try cases ‹ReqFail›) <;>
         simp_all [toBackoff, fail, emit, startListing, rewatch, eventCount_cons, Out.isEvent] <;>
         (repeat' split) <;> simp_all [emit, eventCount_cons, Out.isEvent]
+
+/-- quiet + the pause-waiter invariant: the client is between two streaming blocks -/
+theorem quiet_phase {w : World} (hq : Quiet w) (hc : ConnFresh w) :
+    w.phase = .backoff ∨ w.phase = .blocked ∨ w.phase = .failed := by
+  unfold Quiet ConnFresh at *
+  cases hph : w.phase <;> simp_all
+
+/-- in a quiet state, while the toggle is on, NOTHING is observed: no request, no attempt, no item, no event -/
+theorem quiet_paused_step_outs {w : World} (hq : Quiet w) (hc : ConnFresh w) (hp : w.paused = true) (a : Act) :
+    (step w a).outs = w.outs := by
+  rcases quiet_phase hq hc with h | h | h <;>
+    cases a <;> simp [step, h, hp, toBackoff] <;> (try split) <;> simp_all
 
 end Kopf.C19
